@@ -30,3 +30,13 @@ pub fn set_into_sorted_vec<'a>(s: BTreeSet<&'a String>) -> (r: Vec<&'a String>)
     ensures (r is Some) == m@.dom().contains(k), r is Some ==> *r->Some_0 == m@[k] { unimplemented!() }
 #[verifier::external_body] pub fn map_len<'a>(m: &BTreeMap<&'a String, (&'a Pt, BTreeSet<&'a String>)>) -> (r: usize) ensures r == m@.dom().len(), m@.dom().finite() { unimplemented!() }
 
+
+// Evaluations::clone, the keys of the map (each once), reading and writing the entry of a key   [`for (key, value) in map.iter_mut()` = for each key once: read the value, run the body on it, write it back]
+#[verifier::external_body] pub fn evals_clone(m: &BTreeMap<(String, Pt), Fr>) -> (r: BTreeMap<(String, Pt), Fr>) ensures r@ == m@ { unimplemented!() }
+#[verifier::external_body] pub fn evals_keys(m: &BTreeMap<(String, Pt), Fr>) -> (r: Vec<(String, Pt)>)
+    ensures forall|i: int| 0 <= i < r@.len() ==> m@.dom().contains(#[trigger] r@[i]), forall|k: (String, Pt)| m@.dom().contains(k) ==> exists|i: int| 0 <= i < r@.len() && (#[trigger] r@[i]) == k,
+            forall|i: int, j: int| 0 <= i < j < r@.len() ==> r@[i] != r@[j] { unimplemented!() }
+#[verifier::external_body] pub fn evals_get(m: &BTreeMap<(String, Pt), Fr>, k: &(String, Pt)) -> (r: Fr) requires m@.dom().contains(*k) ensures r == m@[*k] { unimplemented!() }
+#[verifier::external_body] pub fn evals_put(m: &mut BTreeMap<(String, Pt), Fr>, k: &(String, Pt), v: Fr) requires old(m)@.dom().contains(*k) ensures final(m)@ == old(m)@.insert(*k, v) { unimplemented!() }
+#[verifier::external_body] pub fn string_eq(a: &String, b: &String) -> (r: bool) ensures r == (*a == *b) { unimplemented!() }   // <String as PartialEq>::eq
+
